@@ -167,6 +167,14 @@ def run(ctx, R, tier):
     ok = bool(starts) and bool(cn) and cfg.all_paths_pass(cn, lambda n: n in starts, edge_ok=no_exc, targets=hn if hand else [cfg.exit])
     R.check(ok, "C18-R3", "Pool.process|new-worker-started", "a newly created worker thread is started before it is given the job", proc.loc(),
             "a new worker gets the job without having been started: the connection is accepted and never served")
+    # ... and it is counted only once it runs: Thread.start() can fail (the process is out of threads or memory - exactly when the pool is under load); a worker that was put
+    # into busy/idle before that stays there as a thread that never runs: the slot is gone for good and every later connection is refused although nobody is served
+    counted = [n for c in walk_no_nested(proc.node) if isinstance(c, ast.Call) and isinstance(c.func, ast.Attribute) and c.func.attr in ("add", "append")
+               and unparse(c.func.value) in ("self.busy", "self.idle") and c.args and unparse(c.args[0]) == wvar for n in ctx.node_of(proc, c)]
+    early = bool(cn) and bool(starts) and cfg.path_exists(cn, lambda n: n in counted, node_blocked=lambda n: n in starts)
+    R.check(not early, "C18-R3", "Pool.process|new-worker-counted-only-once-started", "a newly created worker enters the busy set only after its thread was started", proc.loc(),
+            "a new worker is put into a pool set before start(): when the thread cannot be started the exception leaves a worker behind that never runs - it occupies a slot "
+            "of THREADPOOL_SIZE for ever (connections refused with no one being served), and close() joins a thread that was never started")
     def idle_nonempty(want):
         def pred(atom, pol):
             return pol is want and unparse(atom) == "self.idle"
@@ -245,10 +253,11 @@ def run(ctx, R, tier):
             "a refused connection can stay open")
 
     from ..report import Rules
+    from ..report import run_shared as _run_shared
     from . import c08
     R8 = Rules("C08")
     try:
-        c08.run(ctx, R8, tier)
+        _run_shared(ctx, c08, R8, tier)
     except AnalysisError as _shared_x:
         # the other property's own anchors are gone on this tree: its check reports that; what it produced before is still shared
         R.note("obligations shared from C08 are incomplete on this tree: %s" % _shared_x)
@@ -259,6 +268,18 @@ def run(ctx, R, tier):
             R.add("C18-R3", "_handshake|refusal-header-names-its-encoding", o.desc + " (a refused client must be able to decode the reason)", o.ok, o.loc, o.detail)
         if o.key == "C08-R4|_handshake|failure-answer-serializer-known":
             R.add("C18-R3", "_handshake|refusal-encodable", o.desc + " (the pool-full refusal is such a failure answer)", o.ok, o.loc, o.detail)
+    # "answered immediately": the refusal runs on the accept thread and starts by reading the refused peer's CONNECT - that read is bounded only if the communication
+    # timeout is already on the socket when accept() hands it over (shared with C05-R1b); set later, by the worker, it never applies to a connection no worker gets
+    from . import c05 as _c05
+    R5_ = Rules("C05")
+    try:
+        _run_shared(ctx, _c05, R5_, tier)
+    except AnalysisError as _shared_x:
+        R.note("obligations shared from C05 are incomplete on this tree: %s" % _shared_x)
+    for o in R5_.obs:
+        if o.key == "C05-R1b|events|timeout-on-the-accepted-socket":
+            R.add("C18-R3", "events|refusal-runs-under-the-communication-timeout", o.desc + " (a silent client that is being refused cannot park the accept loop: later connections are still "
+                  "served or refused)", o.ok, o.loc, o.detail)
     # a refusal is decided before anything of the refused peer's CONNECT is interpreted: in _handshake the denied_reason exit comes before the payload is decoded and before
     # the application's validator runs (denyConnection runs on the accept thread: user code there stalls all accepts, and a refused peer would get the validator's verdict
     # and side effects instead of the refusal)
